@@ -13,6 +13,7 @@ package scheduler
 import (
 	"context"
 	"reflect"
+	"sync"
 	"time"
 )
 
@@ -248,9 +249,31 @@ func verifWaitSelect(s *Scheduler, ctx context.Context) context.Context {
 	return ctx
 }
 
-// verifHideFinished makes Wait's select see only the context: the Scheduler
-// Loop captured the channel it closes when it started, and nothing but this
-// one select of Wait reads the field afterwards.
+// verifHideFinished makes Wait's select see only the context (the Scheduler
+// Loop captured the channel it closes when it started). verifWaitTookDone,
+// the first statement of the ctx.Done arm, puts the channel back, so that
+// whatever the arm does sees the scheduler as it is.
 //
 //go:norace
-func verifHideFinished(s *Scheduler) { s.finishedc = nil }
+func verifHideFinished(s *Scheduler) {
+	verifHiddenMu.Lock()
+	verifHidden[s] = s.finishedc
+	verifHiddenMu.Unlock()
+	s.finishedc = nil
+}
+
+//go:norace
+func verifWaitTookDone(s *Scheduler) {
+	verifHiddenMu.Lock()
+	c, ok := verifHidden[s]
+	delete(verifHidden, s)
+	verifHiddenMu.Unlock()
+	if ok {
+		s.finishedc = c
+	}
+}
+
+var (
+	verifHiddenMu sync.Mutex
+	verifHidden   = map[*Scheduler]chan struct{}{}
+)
